@@ -6,6 +6,7 @@
 import Demeter.Drv.Json
 import Demeter.GmxV1
 import Demeter.GmxV2
+import Demeter.GmxBars
 namespace Demeter.Drv
 open Demeter Lean
 
@@ -114,6 +115,43 @@ def run1 (j : Json) : Except String Json := do
                                  ("net_value", ratJ (GmxV1.netValue cx env s)), ("actions", natJ s.actions.length)])
   pure (.arr out)
 
+/-- the live object across bars (`Demeter.GmxBars`): `events = [{"ev":"status","env":…} | {"ev":"op","op":…} | {"ev":"fee",…}]` applied to
+    ONE object; answers one entry per event (result / fee / state after a status change).  The token set of the object is the
+    `tokenSet` of the request's `env0`. -/
+def events1 (j : Json) : Except String Json := do
+  let cx := jCtx j
+  let mut o : GmxV1.Obj := { row := ← envOf (← jObj j "env0"), st := ← state1Of (← jObj j "state") }
+  let mut out : Array Json := #[]
+  for e in (← jArr j "events") do
+    match ← jStr e "ev" with
+    | "status" =>
+      o := (o.apply cx (.setStatus (← envOf (← jObj e "env")))).2
+      out := out.push (Json.mkObj [("glp", ratJ o.st.glp), ("reward", ratJ o.st.reward), ("wallet", walletJ o.st.wallet),
+                                   ("net_value", ratJ (GmxV1.netValue cx o.row o.st)), ("actions", natJ o.st.actions.length)])
+    | "op" =>
+      let n0 := o.st.actions.length
+      let (a, o') := o.apply cx (.op (← op1Of (← jObj e "op")))
+      o := o'
+      let sj := state1J { o.st with actions := o.st.actions.drop n0 }
+      match a with
+      | .value (.ok v) => out := out.push (Json.mkObj [("outcome", .str "ok"), ("result", ratJ v), ("state", sj)])
+      | .value (.error er) => out := out.push (Json.mkObj [("outcome", .str er.name), ("state", sj)])
+      | _ => throw "op: unexpected answer"
+    | "fee" =>
+      match (o.apply cx (.fee (← jStr e "tok") (← jRat e "usdg") (← jBool e "increase"))).1 with
+      | .feeBps (.ok (f, br)) => out := out.push (Json.mkObj [("outcome", .str "ok"), ("fee", ratJ f), ("branch", .str br.name)])
+      | .feeBps (.error er) => out := out.push (Json.mkObj [("outcome", .str er.name)])
+      | _ => throw "fee: unexpected answer"
+    | "balance" =>
+      out := out.push (Json.mkObj [("glp", ratJ o.st.glp), ("reward", ratJ o.st.reward), ("wallet", walletJ o.st.wallet),
+                                   ("net_value", ratJ (GmxV1.netValue cx o.row o.st)), ("actions", natJ o.st.actions.length)])
+    | k => throw s!"unknown event {k}"
+  pure (.arr out)
+
+/-- instance attributes of the live objects known to the model -/
+def fields (_ : Json) : Except String Json :=
+  pure (Json.mkObj [("v1", .arr (GmxV1.objectFields.map Json.str).toArray), ("v2", .arr (GmxV2.objectFields.map Json.str).toArray)])
+
 /-! ### v2, generic in the number type -/
 
 structure NumIO (α : Type) where
@@ -184,6 +222,45 @@ def step2 (io : NumIO α) (o : GmxV2.Ops α) (j : Json) : Except String Json := 
                                               ("long_amount", io.toJ l), ("short_amount", io.toJ sh)])
     | .error e => pure (Json.mkObj [("outcome", .str e.name)])
   | k => throw s!"unknown op {k}"
+
+/-- the live v2 object across bars: `events = [{"ev":"status","pool":…} | {"ev":"deposit","long","short"} | {"ev":"withdraw","amount"} |
+    {"ev":"balance"}]` applied to ONE object -/
+def events2 (io : NumIO α) (ops : GmxV2.Ops α) (j : Json) : Except String Json := do
+  let cx := jCtx j
+  let sj ← jObj j "state"
+  let mut o : GmxV2.Obj α :=
+    { cfg := ← cfgOf io (← jObj j "config"), longKey := ← jStr j "longKey", shortKey := ← jStr j "shortKey",
+      row := ← poolOf io (← jObj j "pool0"),
+      st := { amount := ← jNum io sj "amount", wallet := ← walletOf sj "wallet", actions := [] } }
+  let mut out : Array Json := #[]
+  for e in (← jArr j "events") do
+    let n0 := o.st.actions.length
+    let tail := fun (o : GmxV2.Obj α) => state2J io { o.st with actions := o.st.actions.drop n0 }
+    match ← jStr e "ev" with
+    | "status" =>
+      o := (o.apply ops cx (.setStatus (← poolOf io (← jObj e "pool")))).2
+      out := out.push (Json.mkObj [("state", tail o)])
+    | "deposit" =>
+      let (a, o') := o.apply ops cx (.deposit (← jNum io e "long") (← jNum io e "short"))
+      o := o'
+      match a with
+      | .deposit (.ok (res, tag)) => out := out.push (Json.mkObj [("outcome", .str "ok"), ("result", lpJ io res), ("state", tail o), ("tag", .str tag)])
+      | .deposit (.error er) => out := out.push (Json.mkObj [("outcome", .str er.name), ("state", tail o), ("tag", .str "-")])
+      | _ => throw "deposit: unexpected answer"
+    | "withdraw" =>
+      let (a, o') := o.apply ops cx (.withdraw (← jNumOpt io e "amount"))
+      o := o'
+      match a with
+      | .withdraw (.ok res) => out := out.push (Json.mkObj [("outcome", .str "ok"), ("result", lpJ io res), ("state", tail o), ("tag", .str "-")])
+      | .withdraw (.error er) => out := out.push (Json.mkObj [("outcome", .str er.name), ("state", tail o), ("tag", .str "-")])
+      | _ => throw "withdraw: unexpected answer"
+    | "balance" =>
+      match GmxV2.balance ops o.row o.st with
+      | .ok (nv, g, l, sh) => out := out.push (Json.mkObj [("outcome", .str "ok"), ("net_value", io.toJ nv), ("gm_amount", io.toJ g),
+                                                           ("long_amount", io.toJ l), ("short_amount", io.toJ sh), ("state", tail o)])
+      | .error er => out := out.push (Json.mkObj [("outcome", .str er.name), ("state", tail o)])
+    | k => throw s!"unknown event {k}"
+  pure (.arr out)
 end
 
 /-- exact mode: natural-number exponents only (the default exponent is 2) -/
@@ -194,6 +271,11 @@ def step2Dispatch (j : Json) : Except String Json :=
   | .ok (.str "exact") => step2 ratIO (GmxV2.ratOps exactPow) j
   | _ => step2 floatIO GmxV2.floatOps j
 
+def events2Dispatch (j : Json) : Except String Json :=
+  match j.getObjVal? "mode" with
+  | .ok (.str "exact") => events2 ratIO (GmxV2.ratOps exactPow) j
+  | _ => events2 floatIO GmxV2.floatOps j
+
 end GmxD
 
 def gmxHandlers : List (String × Handler) := []
@@ -203,7 +285,10 @@ def gmxJHandlers : List (String × JHandler) := [
   ("gmx1.vaultFee", GmxD.vaultFee1),
   ("gmx1.balance", GmxD.balance1),
   ("gmx1.run", GmxD.run1),
-  ("gmx2.step", GmxD.step2Dispatch)
+  ("gmx2.step", GmxD.step2Dispatch),
+  ("gmx1.events", GmxD.events1),
+  ("gmx2.events", GmxD.events2Dispatch),
+  ("gmx.fields", GmxD.fields)
 ]
 
 end Demeter.Drv
